@@ -152,34 +152,80 @@ Proof.
   destruct (view (f :: up) []) as [|x r]; [reflexivity|]. cbn [hd_error]. cbn [forallb] in Hv. apply andb_prop in Hv. tauto.
 Qed.
 
+(* the unfolding equation of the fold (build_from is structural in the number of embedding levels) *)
+Definition bnext (x : bres bstate) (k : bstate -> bres bstate) : bres bstate :=
+  match x with BOk st' => k st' | BErr er => BErr er | BFuel => BFuel end.
+
+Lemma build_from_eq tbl lv evs st :
+  build_from tbl lv evs st =
+  match evs with
+  | [] => BOk st
+  | e :: r =>
+    match e with
+    | EvStartDoc cs lid => build_from tbl lv r (mk_bstate lid cs (b_stack st) (b_root st))
+    | EvEndDoc => build_from tbl lv r st
+    | EvPi _ _ => build_from tbl lv r st
+    | EvStartElt t attrs => bnext (cb_start_element t attrs st) (build_from tbl lv r)
+    | EvEndElt _ => bnext (cb_end_element st) (build_from tbl lv r)
+    | EvChars ch =>
+      match syncml_data_type (b_stack st) with
+      | D_WBXML =>
+        match lv with
+        | O => bnext (add_to_current st (TText ch)) (build_from tbl lv r)
+        | S lv' =>
+          match parse_with tbl 0 (b_charset st) (S (length ch)) ch with
+          | POk evs' =>
+            match build_from tbl lv' evs' st_init with
+            | BOk st' =>
+              let t := tree_of_state st' in
+              bnext (add_to_current st (TSub (wt_lang t) (wt_charset t) (wt_root t))) (build_from tbl lv r)
+            | BErr _ => bnext (add_to_current st (TText ch)) (build_from tbl lv r)
+            | BFuel => BFuel
+            end
+          | PErr _ => bnext (add_to_current st (TText ch)) (build_from tbl lv r)
+          | PFuel => BFuel
+          end
+        end
+      | D_CDATA => bnext (add_to_current (open_cdata st) (TText ch)) (build_from tbl lv r)
+      | D_NORMAL => bnext (add_to_current st (TText ch)) (build_from tbl lv r)
+      end
+    end
+  end.
+Proof. destruct lv; destruct evs; reflexivity. Qed.
+
 (* the fold preserves the invariant, whatever the events are *)
 Lemma build_from_norm tbl ef : forall evs st st', state_norm st = true ->
   build_from tbl ef evs st = BOk st' -> state_norm st' = true.
 Proof.
-  induction ef as [|ef IHef]; intros evs st st' Hs; [discriminate|]. cbn [build_from].
-  revert st Hs. induction evs as [|e r IH]; intros st Hs; [intros H; injection H as <-; exact Hs|].
-  destruct e as [cs lid|t attrs|ch|tg dt|t|].
-  - apply IH. exact Hs.
-  - destruct (cb_start_element t attrs st) as [st1|er|] eqn:E; try discriminate. apply IH. apply (start_element_norm t attrs st st1 Hs E).
-  - assert (Htext : forall s0, state_norm s0 = true -> forall x, match add_to_current s0 (TText ch) with
-                      | BOk st1 => x st1 | BErr er => BErr er | BFuel => BFuel end = BOk st' ->
-                      (forall st1, state_norm st1 = true -> x st1 = BOk st' -> state_norm st' = true) -> state_norm st' = true).
-    { intros s0 H0 x Hx Hk. destruct (add_to_current s0 (TText ch)) as [st1|er|] eqn:E; try discriminate.
-      apply (Hk st1); [apply (add_to_current_norm s0 (TText ch) st1 H0 eq_refl E)|exact Hx]. }
-    destruct (syncml_data_type (b_stack st)).
-    + intros H. apply (Htext st Hs _ H). intros st1 H1 H2. exact (IH st1 H1 H2).
-    + destruct (parse_with tbl 0 (b_charset st) (S (length ch)) ch) as [evs'|er|]; try discriminate.
-      * destruct (build_from tbl ef evs' st_init) as [st2|er|] eqn:E2; try discriminate.
-        -- assert (Hn : norm_node (TSub (wt_lang (tree_of_state st2)) (wt_charset (tree_of_state st2)) (wt_root (tree_of_state st2))) = true).
-           { cbn [norm_node]. apply (tree_of_state_norm st2). apply (IHef evs' st_init st2 eq_refl E2). }
-           destruct (add_to_current st _) as [st1|er|] eqn:E; try discriminate. intros H.
-           apply (IH st1); [apply (add_to_current_norm st _ st1 Hs Hn E)|exact H].
-        -- intros H. apply (Htext st Hs _ H). intros st1 H1 H2. exact (IH st1 H1 H2).
-      * intros H. apply (Htext st Hs _ H). intros st1 H1 H2. exact (IH st1 H1 H2).
-    + intros H. apply (Htext (open_cdata st) (open_cdata_norm st Hs) _ H). intros st1 H1 H2. exact (IH st1 H1 H2).
-  - apply IH. exact Hs.
-  - destruct (cb_end_element st) as [st1|er|] eqn:E; try discriminate. apply IH. apply (end_element_norm st st1 Hs E).
-  - apply IH. exact Hs.
+  induction ef as [|ef IHef]; intros evs st st' Hs.
+  - revert st Hs. induction evs as [|e r IH]; intros st Hs; rewrite build_from_eq; [intros H; injection H as <-; exact Hs|].
+    assert (Htext : forall s0 c, state_norm s0 = true -> bnext (add_to_current s0 (TText c)) (build_from tbl 0 r) = BOk st' -> state_norm st' = true).
+    { intros s0 c H0. unfold bnext. destruct (add_to_current s0 (TText c)) as [st1|er|] eqn:E; try discriminate.
+      apply IH. apply (add_to_current_norm s0 (TText c) st1 H0 eq_refl E). }
+    destruct e as [cs lid|t attrs|ch|tg dt|t|].
+    + apply IH. exact Hs.
+    + unfold bnext. destruct (cb_start_element t attrs st) as [st1|er|] eqn:E; try discriminate. apply IH. apply (start_element_norm t attrs st st1 Hs E).
+    + destruct (syncml_data_type (b_stack st)); [apply Htext; exact Hs|apply Htext; exact Hs|apply Htext; apply open_cdata_norm; exact Hs].
+    + apply IH. exact Hs.
+    + unfold bnext. destruct (cb_end_element st) as [st1|er|] eqn:E; try discriminate. apply IH. apply (end_element_norm st st1 Hs E).
+    + apply IH. exact Hs.
+  - revert st Hs. induction evs as [|e r IH]; intros st Hs; rewrite build_from_eq; [intros H; injection H as <-; exact Hs|].
+    assert (Htext : forall s0 c, state_norm s0 = true -> bnext (add_to_current s0 (TText c)) (build_from tbl (S ef) r) = BOk st' -> state_norm st' = true).
+    { intros s0 c H0. unfold bnext. destruct (add_to_current s0 (TText c)) as [st1|er|] eqn:E; try discriminate.
+      apply IH. apply (add_to_current_norm s0 (TText c) st1 H0 eq_refl E). }
+    destruct e as [cs lid|t attrs|ch|tg dt|t|].
+    + apply IH. exact Hs.
+    + unfold bnext. destruct (cb_start_element t attrs st) as [st1|er|] eqn:E; try discriminate. apply IH. apply (start_element_norm t attrs st st1 Hs E).
+    + destruct (syncml_data_type (b_stack st)); [apply Htext; exact Hs| |apply Htext; apply open_cdata_norm; exact Hs].
+      destruct (parse_with tbl 0 (b_charset st) (S (length ch)) ch) as [evs'|er|]; [|apply Htext; exact Hs|discriminate].
+      destruct (build_from tbl ef evs' st_init) as [st2|er|] eqn:E2; [|apply Htext; exact Hs|discriminate].
+      assert (Hn : norm_node (TSub (wt_lang (tree_of_state st2)) (wt_charset (tree_of_state st2)) (wt_root (tree_of_state st2))) = true).
+      { cbn [norm_node]. apply (tree_of_state_norm st2). apply (IHef evs' st_init st2 eq_refl E2). }
+      cbv zeta. unfold bnext. destruct (add_to_current st _) as [st1|er|] eqn:E; try discriminate.
+      apply IH. apply (add_to_current_norm st _ st1 Hs Hn E).
+    + apply IH. exact Hs.
+    + unfold bnext. destruct (cb_end_element st) as [st1|er|] eqn:E; try discriminate. apply IH. apply (end_element_norm st st1 Hs E).
+    + apply IH. exact Hs.
 Qed.
 
 (* (A) a built tree never has two adjacent text nodes *)
